@@ -707,7 +707,7 @@ def gen_estimate_cases(ctx):
                             keep = 0.7 if small else (0.12 if heavy else 0.4)
                         if rng.random() >= keep:
                             continue
-                    elif heavy and rng.random() >= 0.3:
+                    elif heavy and rng.random() >= 0.2:
                         continue          # instruments / two qubits: a sample of the grid also in the thorough tier (seconds per run)
                     truth = rng.choice(["boundary", "interior", "generic"]) if data != "exact" else rng.choice(["boundary", "interior"])
                     fl = [True, True]
@@ -721,11 +721,11 @@ def gen_estimate_cases(ctx):
                         maxit = max(maxit, 200)
                     add(kind=kind, sys=sysname, m=mo, para=para, truth=truth, data=data, shots=shots, est="lme", algo=algo, loss=loss,
                         order=rng.choice(["eq_ineq", "ineq_eq"]), flags=fl, maxit=maxit, nohist=rng.random() < 0.3)
-                    if data != "exact" and rng.random() < 0.3 and (algo == "bt" or not quick):
+                    if data != "exact" and rng.random() < (0.3 if algo == "bt" else 0.12) and (algo == "bt" or not quick):
                         # other stopping modes / windows (exact-recovery tolerances are calibrated for the default).  Momentum / FISTA in a mode that does not
                         # stop on a loss INCREASE can diverge with relative entropy, and then each projection runs into its cap (known finding C10-4; minutes
                         # with the default cap): thorough tier only, with an explicit cap
-                        cases[-1]["opts"] = dict(mode=rng.choice(STOP_MODES), h=rng.choice([1, 2, 3]), cap=None if algo == "bt" else 3000)
+                        cases[-1]["opts"] = dict(mode=rng.choice(STOP_MODES), h=rng.choice([1, 2, 3]), cap=None if algo == "bt" else 500)
     if not quick:
         # deterministic witness of known finding C10-4 (11 s)
         add(kind="qmpt", sys="1qubit", m=3, para=False, truth="interior", data="fewshot", shots=10, est="lme", algo="mom", loss="wre", order="eq_ineq",
